@@ -91,6 +91,8 @@ class CtxSimpleOpWriteHandler(AbstractWriteHandler):
                     self.start_vertex,
                     check_end_block=Once(),  # Only output one.
                     disallow_nested=True,
+                    # a missing end op belongs after the block, not next to the one operation inside it
+                    add_missing_end=False,
                 ).write_content()
             except NestedBlockDisallowedError:
                 raise ValueError(
